@@ -163,6 +163,15 @@ Definition resolve (fuel : nat) (te : tenv) (s : str) (key : str) : option (list
             end
   end.
 
+(* The key of a record entry need not be a symbol or a string: anything hashable (int, char, array, list) can be
+   put into a record with hset.  Such keys are encoded as byte lists starting with 0 (no Go field name or json tag
+   does: wf_tenv).  SexpToGoStructs: switch k := pair.Head.(type) { case *SexpStr, *SexpSymbol: .. default: panic
+   "unknown fields disallowed" } — the entry names no field. *)
+Definition nonname_key (k : str) : bool := match k with 0 :: _ => true | _ => false end.
+
+Definition resolve_key (fuel : nat) (te : tenv) (s : str) (key : str) : option (list nat) :=
+  if nonname_key key then None else resolve fuel te s key.
+
 (* fld = fld.Field(p.ChildFieldNum) along the EmbedPath, on the ACTUAL target value *)
 Fixpoint type_at (te : tenv) (ty : gotype) (path : list nat) : option gotype :=
   match path with
@@ -385,7 +394,7 @@ Fixpoint conv (fuel : nat) (te : tenv) (top : bool) (ty : gotype) (cur : goval) 
           (* fill: for every pair of the record, resolve the key in the RECORD type's JsonTagMap,
              walk the EmbedPath on the target value, recurse *)
           let fill (bty : str) (base : goval) (st0 : state) : res (goval * state) :=
-              fold_left (fill_step (resolve f te sn) te bty (conv f te false)) fs (Ok (base, st0)) in
+              fold_left (fill_step (resolve_key f te sn) te bty (conv f te false)) fs (Ok (base, st0)) in
           match ty with
           | TStruct tname =>
             if top || str_eqb tname sn then         (* calldepth==0: checkPtrStruct = top, no check at all *)
